@@ -74,6 +74,7 @@ let parse_mop (a : string list) : mop =
   | ["mutv"; t] -> MMutV (key_of_string t)
   | ["delk"] -> MDelK
   | ["delv"] -> MDelV
+  | ["newpair"] -> MNewPair
   | _ -> failwith "bad-op"
 
 let sweep l = fst (it_sweep (S (nat_of_int (List.length l))) (it_new l))
